@@ -2985,3 +2985,56 @@ func referrersOf2(f *ssa.Function) []ssa.Instruction {
 	})
 	return out
 }
+
+func init() {
+	register(&Rule{ID: "C14.wrapglob", Floor: 1, Also: []string{"C10"},
+		Text: "Glob through BasePathFS enumerates the names of the wrapper's own name space: it is the generic Glob of the library run over the wrapper itself (whose ReadDir and Lstat translate every path), so the base path never becomes part of a pattern; if it is forwarded to the base instead, every match is translated back with FromBasePath",
+		Run:  c14WrapGlob})
+}
+
+func c14WrapGlob(rc *RuleCtx) {
+	f := bpMethod(rc, "Glob")
+	cons := "basepathfs.(*BasePathFS).Glob over the wrapper"
+	if f == nil {
+		rc.anchor(cons)
+		return
+	}
+	generic, forwarded := false, false
+	eachCall(f, func(ci ssa.CallInstruction) {
+		fn := calleeFunc(ci)
+		if fn == nil {
+			return
+		}
+		if isPkgFunc(fn, modPath, "Glob") && len(ci.Common().Args) > 0 && strip(ci.Common().Args[0]) == ssa.Value(f.Params[0]) {
+			generic = true
+		}
+		if ci.Common().IsInvoke() && fn.Name() == "Glob" {
+			forwarded = true
+		}
+	})
+	switch {
+	case generic && !forwarded:
+		rc.good(cons, f.Pos(), "avfs.Glob(vfs, pattern): the enumeration of C14.tv run over the wrapper")
+	case forwarded:
+		fromBase := bpMethod(rc, "FromBasePath")
+		ok := false
+		eachCall(f, func(ci ssa.CallInstruction) {
+			c, isC := ci.(*ssa.Call)
+			if !isC || !ci.Common().IsInvoke() || calleeFunc(ci) == nil || calleeFunc(ci).Name() != "Glob" {
+				return
+			}
+			for _, u := range referrersOf(c) {
+				if e, isE := u.(*ssa.Extract); isE && e.Index == 0 && fromBase != nil && sliceElemsTranslated(e, fromBase) {
+					ok = true
+				}
+			}
+		})
+		if ok {
+			rc.good(cons, f.Pos(), "forwarded to the base, every match translated with FromBasePath")
+		} else {
+			rc.bad(cons, f.Pos(), "the matches of the base file system are returned without being translated back into the wrapper's name space")
+		}
+	default:
+		rc.bad(cons, f.Pos(), "Glob neither runs the generic enumeration over the wrapper nor forwards to the base")
+	}
+}
